@@ -575,6 +575,25 @@ func (ex *Exec) specCall(st *State, e *ast.CallExpr) []*Val {
 				}
 			}
 			return one(&Val{T: tBool, Term: and(cs...)})
+		case "has":
+			// has(m, k): key k is present in map m
+			m := ex.expr(st, e.Args[0])
+			mt, ok := m.T.Underlying().(*types.Map)
+			if !ok {
+				ex.specFail("has: first argument is not a map")
+			}
+			k := ex.coerce(st, ex.materialize(ex.expr(st, e.Args[1]), mt.Key()), mt.Key())
+			return one(&Val{T: tBool, Term: ex.mapHas(st, mt, m.Term, k.Term)})
+		case "sameEntries":
+			// sameEntries(a, b): the two maps hold the same keys with the same values
+			a := ex.expr(st, e.Args[0])
+			b := ex.expr(st, e.Args[1])
+			mt, ok := a.T.Underlying().(*types.Map)
+			if !ok {
+				ex.specFail("sameEntries: first argument is not a map")
+			}
+			_, _, vh, hh := ex.mapHeaps(st, mt)
+			return one(&Val{T: tBool, Term: and(eq(sel(vh, a.Term), sel(vh, b.Term)), eq(sel(hh, a.Term), sel(hh, b.Term)))})
 		case "writesOnlySpare":
 			// writesOnlySpare(dst): the frame of an append-style function, stated
 			// over every slice memory: a cell that existed at entry has its entry
@@ -704,6 +723,18 @@ func (ex *Exec) specCall(st *State, e *ast.CallExpr) []*Val {
 			a := ex.expr(st, e.Args[0])
 			b := ex.expr(st, e.Args[1])
 			return one(&Val{T: tBool, Term: and(eq(ex.sRef(a.Term), ex.sRef(b.Term)), not(eq(ex.sRef(a.Term), intLit(0))))})
+		case "unboxAs":
+			// unboxAs(x, T): the value of (non-reference) type T held by interface
+			// value x (meaningful where x is known to hold a T); fields of a
+			// struct T can then be selected: unboxAs(err, DecodeError).Line
+			x := ex.expr(st, e.Args[0])
+			tn := exprText(e.Args[1])
+			t := ex.parseSpecType(tn, ex.specUnit)
+			if t == nil {
+				ex.specFail("unboxAs: unknown type %s", tn)
+			}
+			srt := ex.sortOf(t)
+			return one(&Val{T: t, Term: ex.D.app("unbox$"+smtName(srt), srt, x.Term)})
 		case "boxes":
 			// boxes(x, v): interface value x holds exactly the value v
 			x := ex.expr(st, e.Args[0])
@@ -1046,6 +1077,11 @@ func calleeKey(fn *types.Func) string {
 	pkg := ""
 	if fn.Pkg() != nil {
 		pkg = fn.Pkg().Name()
+		// golang.org/x/exp/{maps,slices} are not the standard packages of
+		// the same name (maps.Keys returns a slice there, an iterator here)
+		if strings.HasPrefix(fn.Pkg().Path(), "golang.org/x/exp/") {
+			pkg = "xexp" + pkg
+		}
 	}
 	if r := sig.Recv(); r != nil {
 		t := r.Type()
@@ -1296,7 +1332,26 @@ func (ex *Exec) ghostStmt(st *State, s ast.Stmt, where string) {
 					only = append(only, strings.Trim(bl.Value, `"`))
 				}
 			}
-			g := ex.materialize(ex.expr(st, call.Args[0]), tBool).Term
+			// an assertion that names a program variable which does not exist
+			// (yet) at the event it is attached to cannot hold: it is reported
+			// as that assertion failing, not as a contract that no longer binds
+			var g *Term
+			func() {
+				defer func() {
+					if r := recover(); r != nil {
+						if se, ok := r.(specError); ok && strings.HasPrefix(se.msg, "unknown name") {
+							ex.obligeAST("assert", label, token.NoPos, false,
+								fmt.Sprintf("%s: the assertion %q refers to a variable that is not defined at this event (%s)", where, label, se.msg), nil)
+							return
+						}
+						panic(r)
+					}
+				}()
+				g = ex.materialize(ex.expr(st, call.Args[0]), tBool).Term
+			}()
+			if g == nil {
+				break
+			}
 			ex.specDepth--
 			ex.curOnly = only
 			ex.oblige(st, "assert", label, token.NoPos, g, nil)
